@@ -23,12 +23,26 @@ func (f *frame) libCall(callee *ssa.Function, c *ssa.CallCommon, base string, re
 	if recv := callee.Signature.Recv(); recv != nil {
 		name = pkg + ".(" + typeName(recv.Type()) + ")." + callee.Name()
 	}
-	if top := e.top; top != nil && top.contract != nil && len(top.contract.AtCalls) > 0 {
+	if top := e.top; top != nil && top.contract != nil && len(top.contract.AtCalls) > 0 && !f.inLibNote {
 		var as []SV
 		for _, a := range c.Args {
 			as = append(as, f.get(a))
 		}
 		f.atCallObligations(name, as, pos)
+	}
+	if top := e.top; top != nil && top.contract != nil && len(top.contract.Calls) > 0 && !f.inLibNote {
+		// ghost events of "calls pkg.F(...)" clauses
+		var as []SV
+		for _, a := range c.Args {
+			as = append(as, f.get(a))
+		}
+		if matches := f.noteCall(name, as); len(matches) > 0 {
+			f.inLibNote = true
+			res := f.libCall(callee, c, base, resT, pos)
+			f.inLibNote = false
+			f.noteCallResult(matches, res)
+			return res
+		}
 	}
 	arg := func(i int) string { return f.scalar(c.Args[i]) }
 	f64 := types.Typ[types.Float64]
